@@ -731,4 +731,40 @@ def cacheAfter (byTagOnly : Bool) (files : List (Str × Str)) : TagCache → Lis
   | c, [] => c
   | c, r :: rs => cacheAfter byTagOnly files (serve1 byTagOnly files c r).2 rs
 
+/-! ## DistribServer.getFile / cacheFile: files fetched from the server, remembered per source -/
+
+/-- `DistribServer._fileCache` (source path ↦ the local file the copy was written to) and the local files -/
+structure FileSrv where
+  cache : List (Str × Str) := []
+  files : List (Str × Str) := []
+  deriving DecidableEq, Repr
+
+inductive FileAns
+  | content (text : Str)
+  | notFound                     -- RemoteFileNotFound
+  | sameFile                     -- shutil.SameFileError (pinned tree only)
+  deriving DecidableEq, Repr
+
+/-- `DistribServer.getFile(path, filename=dest)` → `cacheFile(dest, base/path)`; the answer is what the returned local
+file holds.  `pinned`: the pinned `cacheFile` kept believing that a local file holds the source it was first written
+for, even after the same file had been given as destination for another source, and copied a file onto itself. -/
+def getFile (pinned : Bool) (server : List (Str × Str)) (s : FileSrv) (path dest : Str) : FileAns × FileSrv :=
+  let s1 : FileSrv := if pinned then s else
+    { s with cache := s.cache.filter fun p => !(p.2 == dest && p.1 != path) }
+  match assocGet s1.cache path with
+  | some f =>
+    if f == dest then (if pinned then (.sameFile, s1) else (.content ((assocGet s1.files f).getD []), s1))
+    else
+      let c := (assocGet s1.files f).getD []
+      (.content c, { s1 with files := assocSet s1.files dest c })
+  | none =>
+    match assocGet server path with
+    | none => (.notFound, s1)
+    | some c => (.content c, { cache := assocSet s1.cache path dest, files := assocSet s1.files dest c })
+
+/-- a history of requests `(path, dest)` to one server object -/
+def getFiles (pinned : Bool) (server : List (Str × Str)) : FileSrv → List (Str × Str) → List FileAns
+  | _, [] => []
+  | s, (p, d) :: r => (getFile pinned server s p d).1 :: getFiles pinned server (getFile pinned server s p d).2 r
+
 end EupsModel.Manifest
